@@ -340,7 +340,7 @@ pub fn run_trace(name: &str, cfg: &TowerCfg, history: &[Ev]) -> Result<(), Strin
     let mut steps_a: Vec<(usize, View)> = Vec::new();
     // states are compared after every event both sides have fully digested (not after a block the
     // tower has not been made to poll yet)
-    let synced = |ev: &Ev| !matches!(ev, Ev::Mine(_) | Ev::Reorg { .. } | Ev::External(_));
+    let synced = |ev: &Ev| !matches!(ev, Ev::Mine(_) | Ev::Reorg { .. } | Ev::External(_) | Ev::Evict(_));
     for (i, ev) in history.iter().enumerate() {
         let o = w.apply(ev);
         if let Some(p) = o.panic {
@@ -413,6 +413,9 @@ pub fn run_trace(name: &str, cfg: &TowerCfg, history: &[Ev]) -> Result<(), Strin
                 if !t.wait_synced(&env) {
                     return Err("teosd did not catch up within 15 s".into());
                 }
+            }
+            Ev::Evict(n) => {
+                env.lock().mempool.remove(&crate::sim::txid_of(*n));
             }
             Ev::External(n) => {
                 let _ = env.lock().submit(&crate::sim::build_tx(*n));
